@@ -1,9 +1,11 @@
 //! vf-fn: properties about the function libraries (aggregate state laws, scalar function representations).
 mod c07;
+mod c32;
 mod vals;
 
 fn main() {
     vf_kit::dispatch! {
         "c07" => c07::C07,
+        "c32" => c32::C32,
     }
 }
